@@ -216,6 +216,36 @@ fn dump_body<'tcx>(cx: &mut Ctx<'tcx>, did: DefId, body: &Body<'tcx>) -> String 
         blocks.push(bo.done());
     }
     o = o.raw("blocks", &arr(&blocks));
+    // promoted constants (e.g. `&0`): constants assigned inside each promoted body
+    if body.source.promoted.is_none() && !matches!(tcx.def_kind(did), DefKind::Closure) || true {
+        let proms = tcx.promoted_mir(did);
+        if !proms.is_empty() {
+            let mut pv = Vec::new();
+            for pb in proms.iter() {
+                let penv = TypingEnv::post_analysis(tcx, did);
+                let mut cs = Vec::new();
+                for data in pb.basic_blocks.iter() {
+                    for st in &data.statements {
+                        if let StatementKind::Assign(box (_, rv)) = &st.kind {
+                            match rv {
+                                Rvalue::Use(Operand::Constant(c), _) => cs.push(const_json(cx, &c.const_, penv)),
+                                Rvalue::Aggregate(_, ops) => {
+                                    for op in ops.iter() {
+                                        if let Operand::Constant(c) = op {
+                                            cs.push(const_json(cx, &c.const_, penv));
+                                        }
+                                    }
+                                }
+                                _ => {}
+                            }
+                        }
+                    }
+                }
+                pv.push(arr(&cs));
+            }
+            o = o.raw("promoted", &arr(&pv));
+        }
+    }
     o.done()
 }
 
